@@ -150,6 +150,7 @@ func TestVerifC14(t *testing.T) {
 	for q := 0; q < hk.N(3, 12); q++ {
 		pts = append(pts, ref.BaseMulFast(randScalarI(rng)))
 	}
+	pts = append(pts, patternedPoints(rng, hk.N(8, 40))...) // affine x with carry-critical internal limbs
 	type vcase struct {
 		P   ref.Pt
 		lam *big.Int
@@ -180,6 +181,32 @@ func TestVerifC14(t *testing.T) {
 		}
 		for q := 0; q < hk.N(10, 200); q++ {
 			vcs = append(vcs, vcase{P, new(big.Int).SetBytes(rng.Bytes(31)), rng.Bytes(32), "random"})
+		}
+	}
+	// scalars (longer than 32 bytes: above n) whose 4-bit window schedule runs into its own table entry: after
+	// the prefix c the accumulator [16c]P equals +-[w]P, the addend of the next window, when 16c = +-w (mod n):
+	// k = (16c + w) * 16^t + low digits with c = (m*n +- w) / 16
+	for m := int64(1); m <= 16; m++ {
+		for w := int64(1); w < 16; w++ {
+			for _, sign := range []int64{1, -1} {
+				num := new(big.Int).Add(new(big.Int).Mul(bi(m), n), bi(sign*w))
+				if new(big.Int).Mod(num, bi(16)).Sign() != 0 {
+					continue
+				}
+				c16 := num // = 16c
+				k := new(big.Int).Add(c16, bi(w))
+				t := uint(rng.Intn(3))
+				k.Lsh(k, 4*t)
+				if t > 0 {
+					k.Add(k, new(big.Int).SetBytes(rng.Bytes(1)))
+					k.Mod(k, new(big.Int).Lsh(bi(1), 4*t+270)) // keep it; the low digits are junk
+				}
+				cls := "window-collision:acc=addend"
+				if sign < 0 {
+					cls = "window-collision:acc=-addend"
+				}
+				vcs = append(vcs, vcase{pts[int(m+w)%len(pts)], new(big.Int).SetBytes(rng.Bytes(9)), k.Bytes(), cls})
+			}
 		}
 	}
 	// infinity as the point
@@ -265,6 +292,75 @@ func TestVerifC14(t *testing.T) {
 			mcs = append(mcs, mcase{ref.ModN(new(big.Int).Sub(bi(1), sj)), s, P, "collide:sum=G"})
 		default:
 			mcs = append(mcs, mcase{bi(j), bi(int64(1 + rng.Intn(15))), P, "collide:small"})
+		}
+	}
+	// PARTIAL-sum collisions inside the schedule: P = +-T where T = [t]G is an entry of the comb table, g has
+	// the window that selects T at row i, s = 2^i: in row i the accumulator (from one half) equals, or is
+	// the inverse of, the point the other half adds - the doubling / infinity case of the addition in the
+	// MIDDLE of the loop, optionally with further non-zero rows below it.
+	for _, row := range []uint{0, 1, 2, 6, 12, 13} {
+		for j := uint(0); j < 3; j++ {
+			for _, w := range []uint{1, 2, 3, 21, 32, 63} {
+				t := new(big.Int)
+				for b := uint(0); b < 6; b++ {
+					if w>>b&1 == 1 {
+						t.SetBit(t, int(4+j*14+b*42), 1)
+					}
+				}
+				T := ref.BaseMulFast(t)
+				for variant := 0; variant < 4; variant++ {
+					g := new(big.Int).Lsh(t, row)
+					sc := new(big.Int).Lsh(bi(1), row)
+					P := T
+					cls := "partial-collision:acc=addend"
+					if variant%2 == 1 {
+						P = T.Neg()
+						cls = "partial-collision:acc=-addend"
+					}
+					if variant >= 2 && row > 0 {
+						// junk in the rows below: bits at positions 4 + j'*14 + b*42 + i' with i' < row
+						for q := 0; q < 6; q++ {
+							g.SetBit(g, int(4+uint(rng.Intn(3))*14+uint(rng.Intn(6))*42+uint(rng.Intn(int(row)))), 1)
+						}
+						sc.Add(sc, new(big.Int).SetInt64(int64(rng.Intn(1<<row))))
+						cls += "+lower-rows"
+					}
+					mcs = append(mcs, mcase{ref.ModN(g), sc, P, cls})
+				}
+			}
+		}
+	}
+	// the same with the accumulator built k rows EARLIER by the other scalar: P = [+-t * 2^-k]G, s = 2^(row+k):
+	// after k doublings the accumulator is +-T exactly when the table addition of row `row` adds T
+	for _, row := range []uint{0, 1, 7, 13} {
+		for j := uint(0); j < 3; j++ {
+			for _, w := range []uint{1, 5, 63} {
+				for _, k := range []uint{1, 2, 40, 243} {
+					if row+k > 255 {
+						continue
+					}
+					t := new(big.Int)
+					for b := uint(0); b < 6; b++ {
+						if w>>b&1 == 1 {
+							t.SetBit(t, int(4+j*14+b*42), 1)
+						}
+					}
+					inv := ref.InvN(new(big.Int).Lsh(bi(1), k))
+					for _, neg := range []bool{false, true} {
+						a := ref.ModN(new(big.Int).Mul(t, inv))
+						cls := "partial-collision:earlier-digit,acc=addend"
+						if neg {
+							a = ref.ModN(new(big.Int).Neg(a))
+							cls = "partial-collision:earlier-digit,acc=-addend"
+						}
+						g := new(big.Int).Lsh(t, row)
+						if (row+k+j)%2 == 1 && row > 0 {
+							g.SetBit(g, int(4+uint(rng.Intn(3))*14+uint(rng.Intn(6))*42+uint(rng.Intn(int(row)))), 1)
+						}
+						mcs = append(mcs, mcase{ref.ModN(g), new(big.Int).Lsh(bi(1), row+k), ref.BaseMulFast(a), cls})
+					}
+				}
+			}
 		}
 	}
 	for q := 0; q < hk.N(300, 8000); q++ {
@@ -365,6 +461,98 @@ func TestVerifC14(t *testing.T) {
 			}
 		}
 		r.Eval("var:object-history")
+	}
+	// RESULTS BELONG TO THE CALLER: every point a routine returns (for tiny, zero and ordinary scalars - the
+	// early-exit shapes of the schedules) is overwritten in place by the caller, through every mutator. If a
+	// returned object shares a coordinate element with package state (a constant, a table entry, a cached
+	// point) or with another result, later multiplications go wrong: judged by canaries after each scribble.
+	{
+		lr := hk.NewRNG(hk.Seed(), "c14results")
+		Pm := ref.BaseMulFast(randScalarI(lr))
+		garbage := func() *SM2Point { return fromRef(ref.BaseMulFast(randScalarI(lr)), randScalarI(lr)) }
+		canary := func(what string, hist []string) bool {
+			k := ref.B32(randScalarI(lr))
+			g1, e1 := ScalarBaseMult(k)
+			g2, e2 := ScalarMixedMult_Unsafe(k, fromRef(Pm, bi(1)), k)
+			g3, e3 := ScalarMult(NewSM2Generator(), k)
+			kI := ref.Int(k)
+			w1 := ref.BaseMulFast(kI)
+			w2 := w1.Add(Pm.Mul(kI))
+			bad := e1 != nil || e2 != nil || e3 != nil
+			if !bad {
+				a, _ := toRef(g1)
+				b, _ := toRef(g2)
+				c, _ := toRef(g3)
+				bad = !a.Eq(w1) || !b.Eq(w2) || !c.Eq(w1)
+			}
+			if g, _ := toRef(sm2G); !g.Eq(ref.G()) || rawBig(sm2ElementOne).Cmp(bi(1)) != 0 || rawBig(sm2B).Cmp(ref.SM2B) != 0 {
+				bad = true
+			}
+			if bad {
+				r.Violation("multiplication-wrong-after-caller-overwrote-a-returned-point:"+what, hk.D{"history": hist, "k": hk.Hex(k)})
+			}
+			return !bad
+		}
+		small := [][]byte{make([]byte, 32), ref.B32(bi(1)), ref.B32(bi(2)), ref.B32(bi(7)), ref.B32(bi(15)), ref.B32(bi(16)), ref.B32(bi(63)), ref.B32(new(big.Int).Lsh(bi(1), 14)), ref.B32(new(big.Int).Lsh(bi(5), 42)), ref.B32(randScalarI(lr)), ref.B32(n)}
+		type producer struct {
+			name string
+			f    func(a, b []byte) (*SM2Point, error)
+		}
+		prods := []producer{
+			{"ScalarBaseMult", func(a, b []byte) (*SM2Point, error) { return ScalarBaseMult(a) }},
+			{"scheme-5-3-17", func(a, b []byte) (*SM2Point, error) { return scalarBaseMult_SkipBitExtraction_5_3_17(a) }},
+			{"scheme-4-2-32", func(a, b []byte) (*SM2Point, error) { return scalarBaseMult_SkipBitExtraction_4_2_32(a) }},
+			{"scheme-7-3-12", func(a, b []byte) (*SM2Point, error) { return scalarBaseMult_SkipBitExtraction_7_3_12(a) }},
+			{"ScalarMult(P)", func(a, b []byte) (*SM2Point, error) { return ScalarMult(fromRef(Pm, bi(1)), a) }},
+			{"ScalarMult(G)", func(a, b []byte) (*SM2Point, error) { return ScalarMult(NewSM2Generator(), a) }},
+			{"ScalarMixedMult(g,P,s)", func(a, b []byte) (*SM2Point, error) { return ScalarMixedMult_Unsafe(a, fromRef(Pm, bi(1)), b) }},
+			{"ScalarMixedMult(g,G,s)", func(a, b []byte) (*SM2Point, error) { return ScalarMixedMult_Unsafe(a, NewSM2Generator(), b) }},
+			{"NewSM2Generator", func(a, b []byte) (*SM2Point, error) { return NewSM2Generator(), nil }},
+			{"NewSM2Point", func(a, b []byte) (*SM2Point, error) { return NewSM2Point(), nil }},
+		}
+		nOK := 0
+	outer:
+		for _, pr := range prods {
+			for ai, a := range small {
+				for bi2, b := range small {
+					if pr.name[:6] != "Scalar" || pr.name[:11] != "ScalarMixed" {
+						if bi2 > 0 {
+							continue
+						}
+					} else if (ai+bi2)%2 == 1 && ai > 2 && bi2 > 2 {
+						continue
+					}
+					ret, err := pr.f(a, b)
+					if err != nil || ret == nil {
+						continue
+					}
+					hist := []string{fmt.Sprintf("%s(%x.., %x..)", pr.name, a[28:], b[28:])}
+					switch (ai + bi2) % 5 {
+					case 0:
+						ret.Double(ret)
+						hist = append(hist, "ret.Double(ret)")
+					case 1:
+						ret.Set(garbage())
+						hist = append(hist, "ret.Set(Q)")
+					case 2:
+						ret.Add(ret, garbage())
+						hist = append(hist, "ret.Add(ret,Q)")
+					case 3:
+						ret.SetBytes([]byte{0})
+						hist = append(hist, "ret.SetBytes(infinity)")
+					default:
+						ret.Negate(ret)
+						ret.Select(garbage(), ret, 1)
+						hist = append(hist, "ret.Negate(ret); ret.Select(Q,ret,1)")
+					}
+					if !canary(pr.name, hist) {
+						break outer
+					}
+					nOK++
+				}
+			}
+		}
+		r.EvalN("results-belong-to-the-caller", nOK)
 	}
 	// package-level state must be what it was
 	if g, _ := toRef(sm2G); !g.Eq(ref.G()) || rawBig(sm2ElementOne).Cmp(bi(1)) != 0 || rawBig(sm2B).Cmp(ref.SM2B) != 0 {
